@@ -234,6 +234,9 @@ func c16Run(j vs.Job) *vs.JobResult {
 						}
 					}
 					r.Nontrivial++
+					if len(r.Samples) < 3 && r.Nontrivial%211 == 5 {
+						r.Samples = append(r.Samples, fmt.Sprintf("%s: clean %q, noise %s, on the wire %q, every single cut", p.Mode, clean, v.desc, full))
+					}
 					if len(r.Violations) >= 6 {
 						return
 					}
